@@ -2200,6 +2200,12 @@ void resize_target_update_count(struct cds_lfht *ht,
 {
 	count = max(count, MIN_TABLE_SIZE);
 	count = min(count, ht->max_nr_buckets);
+	/*
+	 * The table size is always a power of two: round the target up
+	 * (max_nr_buckets is a power of two, so this stays within bounds),
+	 * otherwise the resize loop can never reach it.
+	 */
+	count = 1UL << cds_lfht_get_count_order_ulong(count);
 	uatomic_store(&ht->resize_target, count);
 }
 
